@@ -40,7 +40,7 @@ def run(rep, tier):
     ]
     box = ("{2,3,4}", "{0,1,2,3}", "{0,1}", "{0,3}", "{0,2,3}")
     if thorough:
-        box = ("{2,3,4,5,6}", "{0,1,2,3,4,5}", "{0,1,2}", "{0,3,5}", "{0,2,3}")
+        box = ("{2,3,4,5}", "{0,1,2,3,4}", "{0,1,2}", "{0,3,5}", "{0,2,3}")      # nr_exp 6 / factor 5 did not end within the hour
     r = vlib.tlc("GridGen", gen_cfg("gridgen_" + tier, *box, True), heap="12g", stack="256m", tag="c18gen", timeout=3000, workers=8)
     rep.add_tlc(r, "GridGen.tla parameter box %s" % (box,))
     if not vlib.tlc_must_hold(r, "GridGen.tla"):
@@ -58,7 +58,24 @@ def run(rep, tier):
         rep.cov["parameter_sets_rejected_by_model"] = nrej
         rep.sample({k: r.cases[len(r.cases) // 2][k] for k in ("p", "status", "r", "nt", "levels")})
         start = 0
-        rc, recs, out = vlib.run_driver(exe, ["gen", path], timeout=3000)
+        gen_exe = exe
+        if thorough:
+            # the whole box with assertions and library bounds checks; AddressSanitizer (about 20x slower on the large grids) on the part
+            # of the box with nr_exp <= 4 and at most one refinement
+            gen_exe = os.path.join(vlib.build(["drv_gridgen"], "gcc"), "drv_gridgen")
+            small = path + ".asan"
+            with open(small, "w") as f:
+                for c in r.cases:
+                    if c["p"]["nrexp"] <= 4 and c["p"]["d"] <= 1:
+                        f.write(json.dumps(c, separators=(",", ":")) + "\n")
+            rc2, recs2, out2 = vlib.run_driver(exe, ["gen", small], timeout=3000)
+            if rc2 != 0 or not any(x.get("summary") for x in recs2):
+                msg = [l for l in out2.splitlines() if "Assertion" in l or "ERROR" in l or "runtime error" in l][:2]
+                rep.violation("gen:crash:asan", "constructor crashed under AddressSanitizer (rc=%s): %s" % (rc2, " | ".join(msg) or out2[-300:]), replay={"tables": small})
+            for x in recs2:
+                if x.get("fail"):
+                    rep.violation("gen:asan:a%d" % min(x["p"]["a"], 1), "%s -- parameters %s (model: %s)" % (x["what"], x["p"], x["status"]), replay=x)
+        rc, recs, out = vlib.run_driver(gen_exe, ["gen", path], timeout=3000)
         summ = [x for x in recs if x.get("summary")]
         if rc != 0 or not summ:
             cur = int(open(path + ".progress").read().strip() or "0")
